@@ -856,7 +856,23 @@ def _ctxvar(it, var, name, args, kwargs):
 _TRANSPARENT_NATIVE = (ast.AST,)
 
 
+class Bridge:
+    """An interpreted function handed to native code (e.g. the readline callback given to tokenize)."""
+
+    def __init__(self, it, f):
+        self.it, self.f = it, f
+
+    def __call__(self, *a, **k):
+        try:
+            return self.it.call(self.f, list(a), k)
+        except PyRaise as e:
+            if isinstance(e.value, BaseException):
+                raise e.value
+            raise RuntimeError(f"interpreted exception {e.value!r} crossed into native code")
+
+
 def call_native(it, fn, args, kwargs):
+    args = [Bridge(it, a) if isinstance(a, (FuncV, BoundV)) else a for a in args]
     # type objects used as constructors / checks
     self_obj = getattr(fn, "__self__", None)
     if fn is _b.super:
